@@ -1065,6 +1065,163 @@ def d13_separator_belongs_to_text(chk: Check) -> None:
         raise AnalysisError("stores to the path separator not found")
 
 
+def d14_only_self_escapes(chk: Check) -> None:
+    """The reader knows one escape: a backslash makes the *next character*
+    plain text.  It has no named escapes (`\\n`, `\\t`, `\\x..`), so
+    the only rewriting of segment text the writer may do is `c` -> `\\c`.
+    Any other replacement (a line break shown as `\\n`, a tab as a blank)
+    gives canonical text that parses to a different segment."""
+    prog = chk.prog
+    chk.rule("C08-D14", "every constant replacement the path writer applies "
+             "to segment text has the form c -> backslash + c", floor=2)
+    writers = [prog.func("YAMLPath._stringify_yamlpath_segments")]
+    for q in ("SearchTerms.__str__", "CollectorTerms.__str__",
+              "SearchKeywordTerms.__str__"):
+        try:
+            writers.append(prog.func(q))
+        except Exception:  # pylint: disable=broad-except
+            pass
+    n = 0
+    for fi in writers:
+        chk.analysed(fi)
+        for c in ast.walk(fi.node):
+            if not (isinstance(c, ast.Call) and
+                    isinstance(c.func, ast.Attribute) and
+                    c.func.attr == "replace" and len(c.args) >= 2 and
+                    all(isinstance(a, ast.Constant) and
+                        isinstance(a.value, str) for a in c.args[:2])):
+                continue
+            a, b = c.args[0].value, c.args[1].value
+            n += 1
+            text = "{}: .replace({!r}, {!r})".format(fi.short, a, b)
+            if b == "\\" + a:
+                chk.ok("C08-D14", fi, c, text, "the character escaped by "
+                       "itself")
+            else:
+                chk.fail("C08-D14", fi, c, text,
+                         "the parser undoes only a backslash followed by "
+                         "the character itself: {!r} written as {!r} reads "
+                         "back as different text, so str(path) no longer "
+                         "names the same segment".format(a, b))
+
+
+def d15_closer_matches_opener(chk: Check) -> None:
+    """A closing character ends the demarcation that is innermost *if that
+    is its own kind*: `)` closes a Collector only when the innermost open
+    mark is `(`.  An arm that records a segment on a closing character
+    without looking at the top of the stack lets a `)` inside quotes or
+    inside a `[...]` expression of the Collector end the Collector early:
+    `("a)b")` and `(users[note="ok :)"].name)` stop being parseable."""
+    prog = chk.prog
+    chk.rule("C08-D15", "an arm of the parser that pops the demarcation "
+             "stack and records a segment for a closing character tests "
+             "that the innermost open mark is the matching opener",
+             floor=2)
+    roles = parser_roles(prog)
+    fi, char, stack = roles["fi"], roles["char"], roles["stack"]
+    openers = {")": "(", "]": "["}
+    n = 0
+    for arm in walk_local(roles["loop"]):
+        if not isinstance(arm, ast.If):
+            continue
+        pops = [c for st in arm.body for c in ast.walk(st)
+                if isinstance(c, ast.Call) and
+                src(c.func) == stack + ".pop"]
+        records = [c for st in arm.body for c in ast.walk(st)
+                   if isinstance(c, ast.Call) and
+                   isinstance(c.func, ast.Attribute) and
+                   c.func.attr == "append" and src(c.func.value) != stack]
+        # the arm's own test (conjunction)
+        conj = arm.test.values if isinstance(arm.test, ast.BoolOp) and \
+            isinstance(arm.test.op, ast.And) else [arm.test]
+        closing = None
+        for t in conj:
+            if isinstance(t, ast.Compare) and len(t.ops) == 1 and \
+                    isinstance(t.ops[0], ast.Eq) and src(t.left) == char \
+                    and isinstance(t.comparators[0], ast.Constant) and \
+                    t.comparators[0].value in openers:
+                closing = t.comparators[0].value
+        if not (pops and records and closing):
+            continue
+        n += 1
+        want = openers[closing]
+        ok = any(isinstance(t, ast.Compare) and len(t.ops) == 1 and
+                 isinstance(t.ops[0], ast.Eq) and
+                 {src(t.left), src(t.comparators[0])} ==
+                 {stack + "[-1]", repr(want)} or
+                 isinstance(t, ast.Compare) and
+                 {src(t.left), src(t.comparators[0])} ==
+                 {stack + "[-1]", '"{}"'.format(want)}
+                 for t in conj)
+        text = "arm recording a segment on {!r}".format(closing)
+        if ok:
+            chk.ok("C08-D15", fi, arm, text,
+                   "requires {}[-1] == {!r}".format(stack, want))
+        else:
+            chk.fail("C08-D15", fi, arm, text,
+                     "the arm does not test that the innermost open mark is "
+                     "{!r}: a {!r} inside quotes or inside another "
+                     "demarcation ends this one early, so text that was "
+                     "parseable (`(\"a)b\")`) is refused or split "
+                     "differently".format(want, closing))
+    if n < 2:
+        raise AnalysisError("closing arms that record a segment: {}".format(n))
+
+
+def d16_terms_store_what_they_are_given(chk: Check) -> None:
+    """The terms objects (SearchTerms, CollectorTerms, SearchKeywordTerms)
+    are the segment attributes; `__str__` writes their fields back as path
+    text *verbatim*.  Whatever the parser hands to the constructor must
+    therefore be kept as given: a constructor that tidies an argument
+    (strips quotes from a search attribute, say) drops something the
+    writer cannot put back, and `["unit price"=10]` is written as
+    `[unit price=10]`, which reads back as another attribute."""
+    prog = chk.prog
+    chk.rule("C08-D16", "the constructors of the terms classes store every "
+             "text argument unchanged (parameter not re-bound, field "
+             "assigned from the bare parameter)", floor=6)
+    n = 0
+    for cls in ("SearchTerms", "CollectorTerms", "SearchKeywordTerms"):
+        fi = prog.func(cls + ".__init__")
+        chk.analysed(fi)
+        params = [p_ for p_ in fi.params() if p_ != "self"]
+        rebound = {}
+        for x in walk_local(fi.node):
+            if isinstance(x, ast.Name) and isinstance(x.ctx, ast.Store) and \
+                    x.id in params:
+                rebound.setdefault(x.id, x)
+        stored = {}
+        for a in walk_local(fi.node):
+            if isinstance(a, (ast.Assign, ast.AnnAssign)):
+                tg = a.targets[0] if isinstance(a, ast.Assign) else a.target
+                if isinstance(tg, ast.Attribute) and src(tg.value) == "self" \
+                        and a.value is not None:
+                    for p_ in params:
+                        if any(isinstance(y, ast.Name) and y.id == p_
+                               for y in ast.walk(a.value)):
+                            stored.setdefault(p_, []).append(a)
+        for p_ in params:
+            n += 1
+            text = "{}.__init__: `{}`".format(cls, p_)
+            if p_ in rebound:
+                chk.fail("C08-D16", fi, rebound[p_], text,
+                         "the argument is re-bound before it is stored: "
+                         "what the writer prints is no longer what the "
+                         "parser read, so the canonical text of the path "
+                         "parses to other segments")
+            elif any(src(a.value) != p_ for a in stored.get(p_, [])):
+                bad = [a for a in stored[p_] if src(a.value) != p_][0]
+                chk.fail("C08-D16", fi, bad, text,
+                         "stored as `{}`, not as given".format(
+                             src(bad.value)[:40]))
+            elif p_ in stored:
+                chk.ok("C08-D16", fi, stored[p_][0], text, "stored as given")
+            else:
+                chk.ok("C08-D16", fi, fi.node, text, "not stored", False)
+    if n < 6:
+        raise AnalysisError("terms constructor arguments: {}".format(n))
+
+
 def run(chk: Check) -> None:
     d1_automaton(chk)
     d2_stringifier(chk)
@@ -1079,3 +1236,6 @@ def run(chk: Check) -> None:
     d11_stack_top(chk)
     d12_quoted_text_is_literal(chk)
     d13_separator_belongs_to_text(chk)
+    d14_only_self_escapes(chk)
+    d15_closer_matches_opener(chk)
+    d16_terms_store_what_they_are_given(chk)
